@@ -1,14 +1,17 @@
 #!/bin/bash
-# mkmut.sh <name> <file> <old> <new> : makes mutants/<name>.patch from a one-site textual edit of /repo (edit is reverted)
+# mkmut.sh <name> <file> <old> <new> : makes mutants/<name>.patch from a one-site textual edit of
+# /repo's <file>. Works on a scratch copy: /repo itself is never modified.
 set -e
-cd /repo
-python3 - "$2" "$3" "$4" <<'PY'
+T=$(mktemp -d /tmp/mkmut.XXXXXX)
+mkdir -p "$T/a/$(dirname "$2")" "$T/b/$(dirname "$2")"
+cp "/repo/$2" "$T/a/$2"
+python3 - "$T/a/$2" "$T/b/$2" "$3" "$4" <<'PY'
 import sys
-p,old,new=sys.argv[1],sys.argv[2],sys.argv[3]
-s=open(p).read()
+src,dst,old,new=sys.argv[1:5]
+s=open(src).read()
 assert s.count(old)>=1, "pattern not found: "+old
-open(p,'w').write(s.replace(old,new,1))
+open(dst,'w').write(s.replace(old,new,1))
 PY
-git diff > /verif/mutants/$1.patch
-git checkout -q -- .
-echo "made $1"
+(cd "$T" && diff -u "a/$2" "b/$2" > /verif/mutants/$1.patch) || true
+rm -rf "$T"
+test -s /verif/mutants/$1.patch && echo "made $1"
